@@ -250,7 +250,7 @@ ENGINES = [
          serves_properties=["C12"], kind_free_text="TLA+ model of meaning-preserving edits as exhaustive generator of edit sequences with predicted observables, replayed through lian"),
     dict(name="Scope", path="specs/Scope.tla specs/Imports.tla harness/c05.py harness/lianrun.py",
          serves_properties=["C05"], kind_free_text="declarative TLA+ scoping and import rules evaluated by TLC over exhaustively enumerated configurations, judged against lian's bindings"),
-    dict(name="Scheduler", path="specs/Scheduler.tla specs/SchedulerTrace.tla harness/c13.py harness/schedtrace.py harness/schedgen.py harness/lianrun.py",
+    dict(name="Scheduler", path="specs/Scheduler.tla specs/SchedulerTrace.tla specs/StmtWorklist.tla specs/MC_StmtWorklist.tla specs/WorklistTrace.tla harness/c13.py harness/schedtrace.py harness/schedgen.py harness/lianrun.py",
          serves_properties=["C13"], kind_free_text="TLA+ design model (safety bounds + liveness) + trace spec over recorded scheduler events, TLC"),
     dict(name="TaintRules", path="specs/TaintRules.tla harness/c11.py harness/taintgen.py harness/girjson.py harness/lianrun.py",
          serves_properties=["C11"], kind_free_text="TLA+ rule-match predicate and taint closure, TLC as fixpoint engine over recorded runs"),
